@@ -36,6 +36,9 @@ import (
 )
 
 type ingIn struct {
+	// Step > 0: the Ingress is not there at the first (full) sync, it is added by the
+	// Step-th partial sync (an `added` notification on top of the current state)
+	Step      int               `json:"step,omitempty"`
 	Namespace string            `json:"namespace,omitempty"` // "" = default
 	Name      string            `json:"name"`
 	Ann       map[string]string `json:"ann,omitempty"` // keys without the annotation prefix
@@ -317,6 +320,18 @@ func genPipeline(rng *rand.Rand) input {
 			in.Ingresses = append(in.Ingresses, c)
 		}
 	}
+	// some ingresses only arrive with partial syncs; with a short auth-proxy range the binds
+	// of the untouched backends are then in the way of the new ones
+	if rng.Intn(4) == 0 && len(in.Ingresses) > 1 {
+		for i := 1; i < len(in.Ingresses); i++ {
+			if in.Ingresses[i].Name != "ingpass" && rng.Intn(2) == 0 {
+				in.Ingresses[i].Step = 1 + rng.Intn(2)
+			}
+		}
+		if rng.Intn(2) == 0 {
+			in.Global["auth-proxy"] = pick(rng, []string{"_front__auth__local:14415-14415", "_front__auth__local:14415-14416"})
+		}
+	}
 	oauthNS := ""
 	for _, g := range in.Ingresses {
 		if _, ok := g.Ann[kOAuth]; ok {
@@ -411,6 +426,11 @@ func corpus() []input {
 			{Name: "ing1", Ann: annOf(kURL, "http://10.0.0.2:8000/auth", "server-alias", "alias-h1.local"), Rules: r("h1.local", "/a", "app1")},
 			{Name: "ing2", Rules: r("h1.local", "/b", "app1")},
 			{Name: "ing3", Ann: annOf(kOAuth, "oauth2_proxy"), Rules: r("*.w.local", "/w", "app1")}}},
+		// one auth proxy port, taken at the full sync; a partial sync brings another tenant: the
+		// bind of the untouched backend stays, the newcomer is denied
+		{Kind: "pipeline", PathType: "Prefix", Global: map[string]string{"auth-proxy": "_front__auth__local:14415-14415"}, Services: svcs, Ingresses: []ingIn{
+			{Namespace: "team-a", Name: "ing1", Ann: annOf(kURL, "http://10.0.0.1/auth"), Rules: r("a.example", "/", "app1")},
+			{Namespace: "team-b", Name: "ing2", Step: 1, Ann: annOf(kURL, "http://10.0.0.2/auth"), Rules: r("b.example", "/", "app2")}}},
 		// empty auth-proxy range
 		{Kind: "pipeline", PathType: "Prefix", Global: map[string]string{"auth-proxy": "_front__auth__local:14420-14410"}, Services: svcs, Ingresses: []ingIn{
 			{Name: "ing1", Ann: annOf(kURL, "http://10.0.0.2:8000/auth"), Rules: r("h1.local", "/app", "app1")}}},
@@ -457,7 +477,22 @@ func matchOf(pathType string) hatypes.MatchType {
 	return hatypes.MatchBegin
 }
 
-func runPipeline(in input, scratch string) *pipeObs {
+// upTo is the input as it stands after the partial sync number `step`
+func upTo(in input, step int) input {
+	sub := in
+	sub.Ingresses = nil
+	for _, g := range in.Ingresses {
+		if g.Step <= step {
+			sub.Ingresses = append(sub.Ingresses, g)
+		}
+	}
+	return sub
+}
+
+// runPipeline runs the full sync and then one partial sync per step; after each of them the
+// files are written and `judge` looks at the whole state (every path of every backend,
+// also those the partial sync did not touch)
+func runPipeline(in input, scratch string, judge func(step int, sub input, obs *pipeObs)) *pipeObs {
 	p, err := c1819.NewPipe(c1819.PipeOptions{Dir: scratch, Global: in.Global, Render: true, IsExternal: in.External})
 	if err != nil {
 		panic(err)
@@ -473,18 +508,41 @@ func runPipeline(in input, scratch string) *pipeObs {
 			}
 		}
 	}
+	steps := 0
 	for _, g := range in.Ingresses {
-		ann := map[string]string{}
-		for k, v := range g.Ann {
-			ann[c1819.AnnPrefix+"/"+k] = v
+		if g.Step > steps {
+			steps = g.Step
 		}
-		p.AddIngressPT(g.ns(), g.Name, ann, g.Rules, in.PathType)
 	}
-	p.Sync()
-	cfg, err := p.Write()
-	if err != nil {
-		panic(fmt.Sprintf("pipeline write: %v", err))
+	var last *pipeObs
+	for step := 0; step <= steps; step++ {
+		for _, g := range in.Ingresses {
+			if g.Step != step {
+				continue
+			}
+			ann := map[string]string{}
+			for k, v := range g.Ann {
+				ann[c1819.AnnPrefix+"/"+k] = v
+			}
+			if step == 0 {
+				p.AddIngressPT(g.ns(), g.Name, ann, g.Rules, in.PathType)
+			} else {
+				p.AddIngressLater(g.ns(), g.Name, ann, g.Rules, in.PathType)
+			}
+		}
+		p.Sync()
+		cfg, err := p.Write()
+		if err != nil {
+			panic(fmt.Sprintf("pipeline write: %v", err))
+		}
+		sub := upTo(in, step)
+		last = observePipeline(sub, p, cfg)
+		judge(step, sub, last)
 	}
+	return last
+}
+
+func observePipeline(in input, p *c1819.Pipe, cfg string) *pipeObs {
 	obs := &pipeObs{cfg: cfg, pipe: p, Warn: p.Log.Msgs, Binds: map[string]string{}, links: map[string]*hatypes.PathLink{}}
 	hc := p.Instance.Config()
 	for _, b := range hc.Frontend().AuthProxy.BindList {
@@ -739,6 +797,11 @@ func oraclePipeline(in input, obs *pipeObs) []fail {
 		g := byIng[po.Ingress]
 		d := declOf(effAnn(in, g.Ann))
 		if !d.declared {
+			continue
+		}
+		if b := hc.Backends().Items()[po.Backend]; b != nil && b.ModeTCP {
+			// the root of an ssl-passthrough host: TLS is forwarded in tcp mode, there is no
+			// http request to authenticate (plain http to it is redirected to https)
 			continue
 		}
 		id := fmt.Sprintf("%s %s%s (%s, declared %s)", po.Ingress, po.Host, po.Path, po.Backend, po.Declared)
@@ -1025,8 +1088,14 @@ func main() {
 			res.Sample(2, map[string]interface{}{"input": in, "observed": uo})
 		} else {
 			in.Kind = "pipeline"
-			po := runPipeline(in, scratch)
-			fails = oraclePipeline(in, po)
+			po := runPipeline(in, scratch, func(step int, sub input, obs *pipeObs) {
+				for _, f := range oraclePipeline(sub, obs) {
+					if step > 0 {
+						f.what = fmt.Sprintf("after partial sync %d: %s", step, f.what)
+					}
+					fails = append(fails, f)
+				}
+			})
 			observed = po
 			for _, p := range po.Paths {
 				res.Count("declared=" + p.Declared)
